@@ -35,7 +35,12 @@ def run_cases(chk, plan, label, crlf_ok=True):
         crlf = crlf_ok and (variant % 5 == 3)
         mb = variant % 4 == 1
         bare = variant % 7 == 6 and ext not in ("md", "markdown")
-        r = langs.render(case["items"], ext, variant, crlf=crlf, multibyte=mb, bare=bare, endsp=(variant // 3) if variant % 3 == 0 else None)
+        container = None
+        if ext in ("md", "markdown") and variant % 4 == 2:
+            container = ("li", "bq")[(variant // 4) % 2]
+            crlf = False
+        r = langs.render(case["items"], ext, variant, crlf=crlf, multibyte=mb, bare=bare,
+                         endsp=(variant // 3) if variant % 3 == 0 else None, container=container)
         cid = "%s%d" % (label, i)
         batch.append({"id": cid, "files": {r["name"]: r["text"]}, "diff": None, "args": ["list"], "terminal": True})
         meta[cid] = (case, ext, variant, r, crlf, mb, bare)
